@@ -9,8 +9,18 @@ let cmp_of = function
   | "half" -> cmp_half
   | _ -> raise Not_found
 
-(* sst / fst: the same containers over the tracked (non-trivial) key type of the harness *)
-let kind_of = function "ss" | "sst" -> StaticSet | "fsv" | "fip" | "fst" -> FlatSet | _ -> raise Not_found
+(* sst / fst: the same containers over the tracked (non-trivial) key type of the harness; sss / fss: over the
+   std::string key; fbt / fbs: flat_set over the std::vector adaptor with the tracked / the string key *)
+let kind_of = function
+  | "ss" | "sst" | "sss" -> StaticSet
+  | "fsv" | "fip" | "fst" | "fss" | "fbs" | "fbt" -> FlatSet
+  | _ -> raise Not_found
+
+(* the families whose key type counts the element objects a call touches: after an erase(key) / erase(pos) /
+   erase(first, last) that removed nothing every leg prints "touched <n>" (model: ModelMove.erase_touched on the
+   contents before the call; spec: SpecMove.s_erase_nothing_touched) *)
+let counted = function "sst" | "fst" | "fbt" -> true | _ -> false
+let is_vector_erase (o : z op) = match o with EraseKey _ | ErasePos _ | EraseRange (_, _) -> true | _ -> false
 
 (* step parser: (code, op) list *)
 let parse_one t =
@@ -80,6 +90,18 @@ let unres = function
   | UB _ -> raise (Bad "ub")
   | OutOfFuel -> raise (Bad "fuel")
 
+let touched_model fam lt kind (prev : z list) (o : z op) (r : z out) (l : z list) =
+  if counted fam && is_vector_erase o && r <> OContract && List.length l = List.length prev then
+    (match unres (erase_touched lt kind prev o) with
+     | Some m -> join [ "touched"; ns m ]
+     | None -> "touched none")
+  else ""
+
+let touched_spec fam (prev : z list) (o : z op) (l : z list) =
+  if counted fam && is_vector_erase o && List.length l = List.length prev then
+    join [ "touched"; ns s_erase_nothing_touched ]
+  else ""
+
 let header cap (l : z list) =
   let n = List.length l in
   join [ "S"; string_of_int n; b2s (n = 0); b2s (n = cap); string_of_int cap ]
@@ -100,12 +122,13 @@ let model_leg fam cmpname cap steps =
   try
     if List.exists (fun (_, o) -> not (supported kind o)) steps then raise (Bad "nomember");
     let (s, trace) = unres (run lt kind (nat_of_int cap) init (List.map snd steps)) in
-    let rec zip codes tr =
+    let rec zip prev codes tr =
       match codes, tr with
-      | (c, _) :: cs, (o, l) :: ts -> tokjoin [ c; out_s kind o; contents l ] :: zip cs ts
+      | (c, op) :: cs, (o, l) :: ts ->
+          tokjoin [ c; out_s kind o; contents l; touched_model fam lt kind prev op o l ] :: zip l cs ts
       | _, _ -> []
     in
-    let steps_s = zip steps trace in
+    let steps_s = zip [] steps trace in
     let l = s.cur in
     let ask1 tr c = answers_s (unres (ask kind tr c l)) in
     let q_s = List.map (fun q -> join [ "q"; ask1 false (key_cut lt (z_of_int q)) ]) qs in
@@ -131,12 +154,13 @@ let spec_leg fam cmpname cap steps =
   match s_run lt kind (nat_of_int cap) init (List.map snd steps) with
   | None -> "na"
   | Some (s, trace) ->
-      let rec zip codes tr =
+      let rec zip prev codes tr =
         match codes, tr with
-        | (c, _) :: cs, (o, l) :: ts -> tokjoin [ c; sout_s kind o; contents l ] :: zip cs ts
+        | (c, op) :: cs, (o, l) :: ts ->
+            tokjoin [ c; sout_s kind o; contents l; touched_spec fam prev op l ] :: zip l cs ts
         | _, _ -> []
       in
-      let steps_s = zip steps trace in
+      let steps_s = zip [] steps trace in
       let l = s.cur in
       let ask1 c = answers_s (s_ask c l) in
       let q_s = List.map (fun q -> join [ "q"; ask1 (key_cut lt (z_of_int q)) ]) qs in
